@@ -62,10 +62,24 @@ def renderDbg (r : SM State) : String :=
   | .error e => "error " ++ reprStr e
 
 /-- The `EpochInputs` of the pure pipelines, obtained the way the monadic functions obtain them; the computed sync
-committee is read off the monadic result `post` (it is the new `next_sync_committee` at a period boundary). -/
-def epochInputsOf (cfg : Config) (s post : State) : SM EpochInputs := do
-  let prevAtts ← if s.fork = .phase0 then resolve_attestations cfg s (get_previous_epoch cfg s) else pure []
-  let currAtts ← if s.fork = .phase0 then resolve_attestations cfg s (get_current_epoch cfg s) else pure []
+committee is read off the monadic result `post` (it is the new `next_sync_committee` at a period boundary).
+`viaCtx` (the model column): the phase0 pending attestations are resolved the way the code resolves them, through the
+epochs context (`Impl.liveCtx`, `Impl.resolveAttsCtx`: `epc.GetBeaconCommittee` + `FilterParticipants`); at the
+genesis epoch neither pipeline reads them. -/
+def epochInputsOf (cfg : Config) (s post : State) (viaCtx : Bool := false) : SM EpochInputs := do
+  let (prevAtts, currAtts) ←
+    if s.fork ≠ .phase0 then pure (([] : List ResolvedAtt), ([] : List ResolvedAtt))
+    else if viaCtx then
+      if get_current_epoch cfg s = GENESIS_EPOCH then pure ([], [])
+      else do
+        let epc ← Ctx.liftRes (Impl.liveCtx cfg s)
+        let p ← Impl.resolveAttsCtx cfg epc s (get_previous_epoch cfg s) s.previous_epoch_attestations
+        let c ← Impl.resolveAttsCtx cfg epc s (get_current_epoch cfg s) s.current_epoch_attestations
+        pure (p, c)
+    else do
+      let p ← resolve_attestations cfg s (get_previous_epoch cfg s)
+      let c ← resolve_attestations cfg s (get_current_epoch cfg s)
+      pure (p, c)
   let roots ← justification_inputs cfg s
   let boundary := (get_current_epoch cfg s + 1) % cfg.EPOCHS_PER_SYNC_COMMITTEE_PERIOD = 0
   pure { prevAtts := prevAtts, currAtts := currAtts,
@@ -73,9 +87,10 @@ def epochInputsOf (cfg : Config) (s post : State) : SM EpochInputs := do
          computedSync := if boundary then post.next_sync_committee else none }
 
 /-- the monadic result, provided the pure pipeline (the subject of `processEpoch_eq`) gives the same state -/
-def withPipelineCheck (cfg : Config) (s : State) (pipeline : Config → EpochInputs → State → State) (r : SM State) : SM State := do
+def withPipelineCheck (cfg : Config) (s : State) (pipeline : Config → EpochInputs → State → State) (r : SM State)
+    (viaCtx : Bool := false) : SM State := do
   let post ← r
-  let inp ← epochInputsOf cfg s post
+  let inp ← epochInputsOf cfg s post viaCtx
   if pipeline cfg inp s = post then pure post else throw (.oracle "pure pipeline disagrees with the monadic one")
 
 def epochSub (cfg : Config) (agg : AggOracle) (sub : String) (s : State) : Option (SM State) :=
@@ -100,7 +115,7 @@ def epochSub (cfg : Config) (agg : AggOracle) (sub : String) (s : State) : Optio
 /-- the code-shaped model `M` of a sub-transition, where there is one -/
 def epochSubM (cfg : Config) (agg : AggOracle) (sub : String) (s : State) : Option (SM State) :=
   match sub with
-  | "all" => some (withPipelineCheck cfg s Impl.processEpochPure (Impl.processEpochM cfg agg s))
+  | "all" => some (withPipelineCheck cfg s Impl.processEpochPure (Impl.processEpochM cfg agg s) (viaCtx := true))
   | "justification" => some (Impl.justificationM cfg s)
   | "inactivity" => if s.fork = .phase0 then none else some (Impl.inactivityM cfg s)
   | "rewards" => if s.fork = .phase0 then some (Impl.rewardsPhase0M cfg s) else some (Impl.rewardsAltairM cfg s)
@@ -119,8 +134,10 @@ def epochSubM (cfg : Config) (agg : AggOracle) (sub : String) (s : State) : Opti
 def upgradeMaybeM (cfg : Config) (agg : AggOracle) (s : State) : SM State := do
   let post ← upgrade_maybe cfg agg s
   let toAltair := s.fork = .phase0 && at_fork_epoch cfg cfg.ALTAIR_FORK_EPOCH s
-  let atts ← if toAltair then
-      resolve_flag_atts cfg (upgrade_to_altair_pure cfg ⟨[], none⟩ s) s.previous_epoch_attestations
+  -- `altair.TranslateParticipation`: committees from the epochs context of the pre state
+  let atts ← if toAltair then do
+      let epc ← Ctx.liftRes (Impl.liveCtx cfg s)
+      Impl.resolveFlagAttsCtx cfg epc (upgrade_to_altair_pure cfg ⟨[], none⟩ s) s.previous_epoch_attestations
     else pure []
   pure (Impl.upgradeMaybe cfg ⟨atts, post.current_sync_committee⟩ s)
 
